@@ -4,6 +4,7 @@
 // bytes in the register tap.
 #include "player.hpp"
 #include "enumx.hpp"
+#include "gen_music.hpp"
 
 namespace {
 
@@ -213,6 +214,27 @@ int main(int argc, char **argv) {
         o.sample = "removed bank slots" + rs + " from the full layout; " + layout_str(L);
         for(auto &h : HS) { check_note(X, L, h, o); if(o.bad) { return; } }
         o.units = HS.size(); o.nontrivial = true; };
+      fams.push_back(F); }
+    { // channel 10 of EVERY output port is the rhythm channel: a song that names two ports (device-name metas in different tracks) plays channel 10 of the second port (internal MIDI channel 25)
+      en::Family F; F.name = "second_port_channel_10"; F.count = 16 * 4 * 2 * 2; F.chunk = 4; F.budget_s = 60; F.describe = "format-1 song with device names 'A' (track 0) and 'B' (track 1); track 1 sends program {0,5} and key {35,60} on channel 10 (and, as control, channel 1) of port B; x presence of percussion banks 0/5 and melodic 0/1 x blank patterns: the instrument uploaded must be the one the resolver gives for channel 10 / channel 1";
+      F.run = [](uint64_t i, en::CaseOut &o) { uint64_t r = i; unsigned lay = (unsigned)(r % 16); r /= 16; unsigned bl = (unsigned)(r % 4); r /= 4; int prog = (r % 2) ? 5 : 0; r /= 2; int key = r ? 35 : 60;
+        Layout L; L.present = 1u | ((lay & 1) ? 2u : 0) | ((lay & 2) ? 16u : 0) | ((lay & 4) ? 32u : 0) | ((lay & 8) ? 4u : 0); L.blankA = (bl & 1) ? (0x30 & L.present) : 0; L.blankB = (bl & 2) ? (0x10 & L.present) : 0;
+        for(int chn : {9, 0}) {
+            Inst X; if(!build(X, L)) { o.fail("C12/harness-build", "could not build the layout through the bank API"); return; }
+            gm::Track t0, t1; t0.meta(0, 0x09, "A").ev(0, {0xB1, 7, 100}).eot(48); t1.meta(0, 0x09, "B").ev(0, {(uint8_t)(0xC0 | chn), (uint8_t)prog}).ev(10, {(uint8_t)(0x90 | chn), (uint8_t)key, 100}).eot(48);
+            Bytes song = gm::smf(1, 96, {t0.d, t1.d});
+            if(opn2_openData(X.I.dev, song.data(), (unsigned long)song.size()) != 0) { o.fail("C12/harness-build", std::string("two-port song rejected: ") + opn2_errorInfo(X.I.dev)); return; }
+            X.I.tap.log.clear(); for(int k = 0; k < 20; k++) opn2_tickEvents(X.I.dev, 0.01, 1e-6);
+            if(X.I.play()->m_midiChannels.size() < 32) { o.fail("C12/harness-build", "the song did not open a second port"); return; }
+            Hist h; h.mode = 2; h.ch = chn; h.msb = 0; h.lsb = 0; h.program = prog; h.key = key; h.path = 0; h.order = 0; h.drumpart = false;
+            bool perc; int tone = 0; uint64_t tags = 0; int want = resolve(L, h, perc, tone, tags); o.tags |= tags;
+            int got_id = -1; bool keyon = false; for(auto &w : X.I.tap.log) { if(w.kind) continue; if((w.reg & 0xF0) == 0x60 && (w.reg & 0x0C) == 0) got_id = w.val & 0x1F; if(w.reg == 0x28 && (w.val & 0xF0)) keyon = true; }
+            std::string ctx = " [song with two ports, channel " + std::to_string(chn + 1) + " of port B, program " + std::to_string(prog) + ", key " + std::to_string(key) + "; " + layout_str(L) + "]"; char b[300];
+            if(want < 0) { if(keyon) { snprintf(b, sizeof b, "every candidate entry is blank or missing, but a note was keyed on (instrument id %d)", got_id); o.fail("C12/blank-note-played", b + ctx); return; } }
+            else { int wid = ins_id(want / 2, want % 2);
+                if(!keyon) { snprintf(b, sizeof b, "expected instrument id %d, no note was keyed on", wid); o.fail(std::string("C12/note-rejected/") + (perc ? "percussion" : "melodic"), b + ctx); return; }
+                if(got_id != (wid & 0x1F)) { snprintf(b, sizeof b, "instrument id %d was uploaded, the documented resolution gives id %d (%s)", got_id, wid, perc ? "percussion: bank from the program, entry from the key" : "melodic"); o.fail(std::string("C12/wrong-instrument/") + (perc ? "percussion" : "melodic") + "/second-port", b + ctx); return; } } }
+        o.sample = "two-port song, layout " + layout_str(L); o.units = 2; o.nontrivial = true; };
       fams.push_back(F); }
     { en::Family F; F.name = "replaced_instrument"; F.count = 7 * 2 * 3; F.chunk = 4; F.budget_s = 30; F.describe = "an entry replaced through opn2_setInstrument (each of the first 7 banks x 2 entries x {before any note, after playing the old one, while the old one sounds}) is the one played next";
       F.run = [](uint64_t i, en::CaseOut &o) { int b = (int)(i % 7), e = (int)((i / 7) % 2), when = (int)(i / 14); Layout L; L.present = 0xFF; L.blankA = 0; L.blankB = 0; Inst X; if(!build(X, L)) { o.fail("C12/harness-build", "build"); return; }
